@@ -309,11 +309,13 @@ def bfs(rep: Report, tables, style, max_depth, deadline, label):
 # (b) pipeline conformance
 # ----------------------------------------------------------------------------------------------
 def _pipeline(task):
-    tables, style, dialect, hist = task
+    tables, style, dialect, hist = task[:4]
+    term = task[4] if len(task) > 4 else ""
     from sqllineage.runner import LineageRunner
 
     hist = [tuple(ev) for ev in hist]
-    script = ";\n".join(render(ev, style, dialect) for ev in hist)
+    # term ";": every statement, the last one too, ends with a semicolon - a repeated statement is then repeated character by character
+    script = ";\n".join(render(ev, style, dialect) for ev in hist) + term
     ref = ref_of(hist, style)
     try:
         r = LineageRunner(script, dialect=dialect)
@@ -332,12 +334,13 @@ def _pipeline(task):
 
 
 def pipeline(rep: Report, plan, deadline):
-    """plan: list of (tables, style, dialect, depth)"""
+    """plan: list of (tables, style, dialect, depth[, terminator of the last statement])"""
     t0 = time.time()
     total = 0
     parts = []
     first_bad = set()
-    for tables, style, dialect, depth in plan:
+    for tables, style, dialect, depth, *rest in plan:
+        term = rest[0] if rest else ""
         if time.time() > deadline:
             rep.cap(f"pipeline conformance: time cap before {tables}/{style}/{dialect}/depth {depth}")
             break
@@ -345,7 +348,7 @@ def pipeline(rep: Report, plan, deadline):
         tasks = []
         for d in range(1, depth + 1):
             for hist in itertools.product(letters, repeat=d):
-                tasks.append((tables, style, dialect, [list(ev) for ev in hist]))
+                tasks.append((tables, style, dialect, [list(ev) for ev in hist], term))
         res = pmap(_pipeline, tasks, chunk=64)
         total += len(tasks)
         for task, (bad, script) in zip(tasks, res):
@@ -356,10 +359,10 @@ def pipeline(rep: Report, plan, deadline):
                 first_bad.add(sig)
                 rep.violation(
                     "pipeline-disagrees-with-reference",
-                    {"part": "b", "tables": list(tables), "style": style, "dialect": dialect, "history": task[3], "script": script},
+                    {"part": "b", "tables": list(tables), "style": style, "dialect": dialect, "history": task[3], "term": term, "script": script},
                     bad[:4],
                 )
-        parts.append({"tables": list(tables), "style": style, "dialect": dialect, "depth": depth, "scripts": len(tasks)})
+        parts.append({"tables": list(tables), "style": style, "dialect": dialect, "depth": depth, "last_statement_terminated": bool(term), "scripts": len(tasks)})
     return {"scripts": total, "parts": parts, "wall_s": round(time.time() - t0, 1)}
 
 
@@ -431,7 +434,7 @@ def run(tier: str, opts: dict) -> int:
             bfs(rep, T2, "lit", 30, t0 + budget, "2 tables, to fixpoint, literal templates"),
             bfs(rep, T2, "ddl", 4, t0 + budget, "2 tables, depth 4, CREATE TABLE (columns) as the read-nothing write"),
         ]
-        pipe = pipeline(rep, [(T3, "star", "ansi", 2), (T2, "lit", "ansi", 3), (T2, "star", "mysql", 2), (T2, "ddl", "ansi", 3)], t0 + budget)
+        pipe = pipeline(rep, [(T3, "star", "ansi", 2), (T2, "lit", "ansi", 3, ";"), (T2, "star", "mysql", 2), (T2, "ddl", "ansi", 3), (T3, "lit", "ansi", 2, ";"), (T2, "star", "ansi", 3, ";")], t0 + budget)
     else:
         budget = 840
         runs = [
@@ -443,7 +446,7 @@ def run(tier: str, opts: dict) -> int:
         ]
         pipe = pipeline(
             rep,
-            [(T3, "star", "ansi", 3), (T2, "lit", "ansi", 4), (T2, "star", "mysql", 3), (T2, "star", "non-validating", 3), (T2, "lit", "tsql", 3)],
+            [(T3, "star", "ansi", 3), (T2, "lit", "ansi", 4, ";"), (T2, "star", "mysql", 3), (T2, "star", "non-validating", 3, ";"), (T2, "lit", "tsql", 3), (T3, "lit", "ansi", 3, ";")],
             t0 + budget,
         )
     multi = multi_rename(rep, tier)
@@ -491,7 +494,7 @@ def replay(body: dict, opts: dict) -> int:
         s, t, m, e, _ = impl_obs(tables, c["style"], hist)
         bad = compare(ref, (s, t, m, e), tables, hist[-1])
     else:
-        bad, _ = _pipeline((tables, c["style"], c["dialect"], c["history"]))
+        bad, _ = _pipeline((tables, c["style"], c["dialect"], c["history"], c.get("term", "")))
     print("script:", c.get("script"))
     print("reference roles (source, target, intermediate):", [sorted(x) for x in ref.roles()], "unconstrained:", sorted(ref.taint))
     print("discrepancies:", bad)
